@@ -10,12 +10,21 @@ TEXT = {
  "C01": ("Bounded-exhaustive: every registered instruction (by name) on every operand tuple of the boundary alphabets, every operand-missing pattern, empty and populated states, in an overflow-checking and a release build, inside supervised worker processes; see evidence for the families that ran.",
          "Trusted: the alphabets; worker supervision (RLIMIT_AS, breadcrumb attribution). Values outside the alphabets, programs beyond the bounds are not covered.",
          "bounded exhaustive enumeration of single steps / BFS over the real interpreter transition function, no-crash invariant"),
+ "C03": ("Every token sequence up to K over a 26-token alphabet and every character string up to L over an 11-character alphabet parsed by the real parser in two build profiles; balanced inputs compared with an independent recursive-descent reference; all other stacks must be untouched.",
+         "Trusted: the reference parser in harness/src/c03.rs; alphabets.",
+         "exhaustive enumeration of all strings up to a length bound against a reference parser"),
  "C04": ("Every scalar instruction by name on every operand tuple of the boundary alphabets, each step compared with the reference model row and across build profiles.",
          "Trusted: reference rows in harness/src/refmodel.rs (written from the doc comments); std float functions.",
          "exhaustive enumeration over a boundary alphabet against a reference model + build-profile differential"),
  "C05": ("Every registered stack-manipulation instruction of the nine types on every depth 0..N and every index class, compared with ONE generic position map.",
          "Trusted: the generic position map (harness/src/steps.rs position_map).",
          "exhaustive enumeration (type x op x depth x index) against one generic reference"),
+ "C06": ("Every combinator on every EXEC/CODE depth 0..4; every loop program of the alphabets executed to quiescence with a PROBE instruction and compared (log + final state) with a structured reference of the documented whole-run meaning.",
+         "Trusted: run_struct in harness/src/c06.rs and the control rows of refmodel.rs.",
+         "exhaustive enumeration of small programs executed on the real interpreter against a reference interpreter"),
+ "C07": ("Explicit-state BFS over define/use/quote/redefine token histories for each of the eight value types, real state compared with the reference interpreter after every transition.",
+         "Trusted: ref_step in harness/src/refmodel.rs.",
+         "explicit-state BFS over the real interpreter transition function with canonical-state dedup against a reference model"),
  "C08": ("All code trees up to S points x all indices / all pairs, every CODE surgery instruction by name compared with reference tree functions and with the property's own metamorphic equations; Item API checked directly.",
          "Trusted: harness/src/treeops.rs (depth-first point indexing) and the CODE rows of refmodel.rs.",
          "exhaustive small-scope enumeration of code trees against a reference model + metamorphic oracles"),
@@ -25,6 +34,9 @@ TEXT = {
  "C10": ("All registered instructions x every subset of operand stacks made too short x every depth below the need, on empty and fully populated states, judged on the full snapshot by the unfired rule; fired cases judged for confinement to the documented footprint.",
          "Trusted: footprint table harness/src/foot.rs (from the doc comments).",
          "exhaustive enumeration of operand-missing patterns with a whole-state frame oracle"),
+ "C11": ("All code trees up to S points over the printable atom kinds, printed by the three printing routes and parsed back by the real parser.",
+         "Trusted: structural comparison by the harness's own tree type.",
+         "exhaustive small-scope enumeration of programs, round-trip oracle"),
  "C16": ("Every reachable PushStack content up to the size bound (BFS to fixpoint) x every public operation x every position in [0,len+2] executed on the real container and compared with a plain Vec; complete for the bound.",
          "Trusted: the Vec reference (harness/src/c16.rs); PushStack has no hidden state besides its elements.",
          "explicit-state BFS to fixpoint over the real container against a reference model"),
